@@ -23,7 +23,7 @@ from ..cfg import cfg_of
 from ..core import Ctx, key_of
 from ..effects import sink_of
 from ..loops import classify, definite_problem
-from ..model import AnchorMissing, Inconclusive, dotted, norm, own_nodes
+from ..model import AnchorMissing, Inconclusive, dotted, norm, own_nodes, const_str
 from .common import facts_of
 
 META = {
@@ -675,6 +675,57 @@ def run(ctx: Ctx):
                key=key_of("R11.2", ssn, None, "prepass horizon " + norm(m.ast)[:40]))
     if not marks:
         raise AnchorMissing("scheduleScenario: milestone pre-pass marks nothing as scheduled")
+    # ... and EACH pinned date is compared, not one chosen among them (round 8, C11-13: `anchor = start or end` tested alone let a
+    # milestone with its start inside and its end beyond the frame be marked scheduled outside the horizon). For every date local
+    # of the pre-pass (task.get('start'|'end')) and every mark: all paths pass a frame test that compares that very date -- directly,
+    # through a plain local copy, or as an element of the tuple a generator ranges over -- unless the mark stands under `not <date>`.
+    from ..order import local_resolver as _lr11
+    res11 = _lr11(ssn.node)
+    dates = {}
+    for st in pre[0].body:
+        for x in ast.walk(st):
+            if isinstance(x, ast.Assign) and len(x.targets) == 1 and isinstance(x.targets[0], ast.Name) and isinstance(x.value, ast.Call) \
+                    and norm(x.value.func) == "task.get" and x.value.args and const_str(x.value.args[0]) in ("start", "end"):
+                dates[x.targets[0].id] = const_str(x.value.args[0])
+    if set(dates.values()) != {"start", "end"}:
+        raise AnchorMissing(f"scheduleScenario: pre-pass date locals not found ({dates})")
+
+    def covers(test, v):
+        gens = {}
+        for g in ast.walk(test):
+            if isinstance(g, ast.comprehension) and isinstance(g.target, ast.Name) and isinstance(g.iter, (ast.Tuple, ast.List)):
+                gens[g.target.id] = {e.id for e in g.iter.elts if isinstance(e, ast.Name)}
+        for c_ in ast.walk(test):
+            if not isinstance(c_, ast.Compare):
+                continue
+            t_ = norm(c_).replace('"', "'")
+            if "self['start']" not in t_ and "self['end']" not in t_:
+                continue
+            for o in [c_.left] + list(c_.comparators):
+                if not isinstance(o, ast.Name):
+                    continue
+                if o.id == v or v in gens.get(o.id, ()):
+                    return True
+                if o.id not in dates and any(isinstance(d_, ast.Name) and d_.id == v for d_ in res11(o)):
+                    return True
+        return False
+
+    fss = facts_of(ssn)
+    for m in marks:
+        for v in sorted(dates):
+            if fss.holds(m, lambda t, p_, v=v: (not p_) and t == v) is not None:
+                continue
+
+            def tests_v(n, v=v):
+                if n.kind != "if" or n.ast is None:
+                    return False
+                return covers(n.ast.test if isinstance(n.ast, ast.If) else n.ast, v)
+            ok = gss.all_paths_pass(hdr, m, tests_v)
+            ctx.ob("R11.2", f"{ssn.qual}: pre-pass {norm(m.ast)[:40]}: the pinned `{v}` itself is compared with the project frame", (ssn, m.ast), ok,
+                   "each pinned date is tested on its own" if ok else
+                   f"the frame test on the way to this mark does not compare `{v}` itself (one date is chosen among several): a milestone "
+                   f"whose other date lies inside the frame is marked scheduled with its `{dates[v]}` beyond the horizon, with no warning",
+                   key=key_of("R11.2", ssn, None, f"prepass horizon each {v} " + norm(m.ast)[:30]))
     # ---------------------------------------------------------------- R11.3 recursion
     succ = {f: set() for f in reach}
     site_of = {}
